@@ -233,6 +233,26 @@ func runC10(c *Ctx) {
 		}
 		return vFieldLoad(clientReqT, "query", nil)(v) || vFieldLoadO(clientReqT, "query")(v)
 	}
+	// SetQueryParam records the NAME whatever the number of values: buildHTTP tells "the caller set this name" by key
+	// presence, so an override with no values (send nothing under this name) must still leave an entry
+	if sqp := p.FnOpt("(*rt/client.request).SetQueryParam"); sqp != nil && len(sqp.Params) >= 2 {
+		records := func(in ssa.Instruction) bool {
+			if mu, ok := in.(*ssa.MapUpdate); ok {
+				return (vFieldLoad(clientReqT, "query", nil)(mu.Map) || vFieldLoadO(clientReqT, "query")(mu.Map)) && sameOrigins(mu.Key, sqp.Params[1])
+			}
+			if isCallInstrTo("(net/url.Values).Set")(in) {
+				_, a := callArgs(in.(ssa.CallInstruction).Common())
+				return len(a) > 0 && sameOrigins(a[0], sqp.Params[1])
+			}
+			return false
+		}
+		for _, r := range returnsOf(sqp) {
+			if len(r.Results) != 1 || !isNilConst(r.Results[0]) {
+				continue
+			}
+			c.obI("R10.2", r, "override-recorded-for-any-number-of-values", !pathExists(sqp, nil, r, nil, records), "SetQueryParam leaves an entry under the name on every successful call, also for an empty list of values: the caller's override is recognised by key presence", "a successful SetQueryParam can leave the name absent (e.g. values added one by one: none for an empty list) — the pattern's or base path's value of that name comes back")
+		}
+	}
 	// setting a parameter of the request's query: SetQueryParam(k, v...) or, spelled out, r.query[k] = v
 	type valuesOp struct {
 		In       ssa.Instruction
